@@ -201,6 +201,8 @@ def param_pool(level):
         D(("std::string",), "std::string", cpre=True, ptrs=[("&", False, False)], name="s"),
         D(("int",), "int"),  # abstract
         D(("char",), "char", cpre=True, ptrs=[("*", False, False)]),  # abstract pointer
+        D(("void",), "void", ptrs=[("*", False, False)]),  # abstract void *: not the same as an empty list
+        D(("void",), "void", cpre=True, ptrs=[("*", False, False)], name="p"),
     ]
     if level >= 2:
         pool += [
@@ -240,7 +242,8 @@ def function_pointers(level):
     pool = param_pool(1)
     for (spec, tname, must), ptrs, params in itertools.product(
             [VOID] + NATIVE_TYPES[:3] + [NATIVE_TYPES[14]], [[], [("*", False, False)]],
-            [[], [pool[3]], [pool[3], pool[4]], [pool[0], pool[1]]]):
+            [[], [pool[3]], [pool[3], pool[4]], [pool[0], pool[1]], [pool[5]], [pool[5], pool[3]], [pool[6]],
+             [D(("void",), "void", ptrs=[("*", False, False), ("*", False, False)])], [D(("void",), "void", cpre=True, ptrs=[("*", False, False)])]]):
         yield D(spec, tname, must, ptrs=ptrs, name="fp", params=params, funcptr=True)
 
 
